@@ -292,6 +292,7 @@ func init() {
 		in.sched.yield(fr, "Gosched")
 		return nil
 	})
+	reg("runtime.Callers", func(in *Interp, fr *Frame, fn *ssa.Function, a []Value) Value { return cI(in, 0) })
 	reg("runtime.GOMAXPROCS", func(in *Interp, fr *Frame, fn *ssa.Function, a []Value) Value { return cI(in, 4) })
 	reg("runtime.NumCPU", func(in *Interp, fr *Frame, fn *ssa.Function, a []Value) Value { return cI(in, 4) })
 	reg("runtime.NumGoroutine", func(in *Interp, fr *Frame, fn *ssa.Function, a []Value) Value {
